@@ -38,3 +38,54 @@ package secureservice
 //@   ensures [signed_kind]     result.Type == 1
 //@ func (noVerifyChecker).MakeCredentials
 //@   ensures [is_configured_cred] result == n.cred
+
+// ---------------------------------------------------------------------------------------------
+// C14: where identity verification is required. Init selects the checker of inbound handshakes: a
+// peer that is a network node (its id has node types in the configuration) or whose configuration
+// demands client authentication verifies the account signature of every inbound peer - the inbound
+// checker is then the signature verifier built for this account, never the no-verify checker.
+//@ ghost cfgRead Bool stable
+//@ ghost cfgRequireAuth Bool stable
+//@ ghost selfNodeTypes Int stable
+//@ package github.com/anyproto/any-sync/net/secureservice
+//@ func iface secureservice.configGetter.GetSecureService
+//@   modifies nothing
+//@   sets cfgRead = true
+//@   sets cfgRequireAuth = result.RequireClientAuth
+//@ func iface nodeconf.Service.NodeTypes
+//@   modifies nothing
+//@   sets selfNodeTypes = len(result)
+//@ func newPeerSignVerifier
+//@   modifies nothing
+//@   posits [is_a_signature_verifier] typeis(result, "*secureservice.peerSignVerifier") && fresh(ifaceptr(result))
+//@ func newNoVerifyChecker
+//@   modifies nothing
+//@   posits [is_a_no_verify_checker] typeis(result, "*secureservice.noVerifyChecker") && fresh(ifaceptr(result))
+//@ func iface accountservice.Service.Account
+//@   pure
+// the component container only hands out what was registered (assumed here; the container itself is
+// under contract in C20 - these frames are for this client only, package app is not loaded with it)
+//@ package github.com/anyproto/any-sync/app
+//@ func (*App).Component
+//@   modifies nothing
+//@ func (*App).MustComponent
+//@   modifies nothing
+//@ func (*App).VersionName
+//@   modifies nothing
+//@ package github.com/libp2p/go-libp2p/core/crypto
+//@ func UnmarshalEd25519PrivateKey
+//@   modifies nothing
+//@ package github.com/anyproto/any-sync/net/secureservice
+//@ func iface crypto.PrivKey.Raw
+//@   modifies nothing
+//@ package github.com/anyproto/any-sync/util/crypto
+//@ func UnmarshalEd25519PrivateKey
+//@   modifies nothing
+//@ package github.com/libp2p/go-libp2p/p2p/security/tls
+//@ func New
+//@   modifies nothing
+//@ package github.com/anyproto/any-sync/net/secureservice
+//@ func (*secureService).Init
+//@   requires s != nil && a != nil
+//@   requires !cfgRead
+//@   ensures [required_verification_selects_the_verifier] err == nil && ((cfgRead && cfgRequireAuth) || selfNodeTypes > 0) ==> s.inboundChecker == s.peerSignVerifier && typeis(s.inboundChecker, "*secureservice.peerSignVerifier")
